@@ -718,189 +718,10 @@ Section LeadingZeroGeneral.
   Qed.
 End LeadingZeroGeneral.
 
-(* ---------------------------------------------------------------- leading zero at any element position *)
+(* the separator before the last entry of a chain is well formed *)
 Lemma chain_split' : forall l b s g, chain_ok b (l ++ [(s, g)]) = true -> wf_sep s = true /\ True.
 Proof.
   induction l as [|[s0 g0] l IH]; intros b s g H.
   - simpl in H. apply andb_prop in H. destruct H as [H _]. apply andb_prop in H. tauto.
   - simpl in H. apply andb_prop in H. destruct H as [_ H]. exact (IH _ _ _ H).
 Qed.
-
-Section LeadingZeroAnywhere.
-  Variable T : ptable.
-  Variable e : elem.
-  Variable d : ascii.
-  Variable Z : string.
-  Hypothesis He : wf_elem T e = true.
-  Hypothesis Hcnt : el_cnt e = None.
-  Hypothesis Hd : is_digit d = true.
-
-  Let W := zero_lead d Z.
-  Let Y := r_elem e ++ W.
-
-  Lemma Y_upper : hds is_upper Y = true.
-  Proof. apply (elem_hd T). exact He. Qed.
-
-  (* the loop over complete groups, then whatever the group at the path does *)
-  Lemma more_path : forall f l, forall prev s p k acc,
-    (cdepth l <= f)%nat -> forallb (fun q => wf_group T (snd q)) l = true ->
-    chain_ok (is_imp prev) (l ++ [(s, path_head p)]) = true -> (length l < k)%nat ->
-    wf_path T p = true ->
-    more (pgroup T (p_composite T f)) k acc (r_tail l ++ r_sep s ++ r_path p ++ Y) =
-    match pgroup T (p_composite T f) (r_path p ++ Y) with
-    | POk g' r' => more (pgroup T (p_composite T f)) (k - S (length l)) ((acc ++ v_comp T l) ++ g')%list r'
-    | PFail => POk (acc ++ v_comp T l)%list (r_sep s ++ r_path p ++ Y)
-    | PAbort x => PAbort x
-    end.
-  Proof.
-    intros f. induction l as [|[s0 g0] l IH]; intros prev s p k acc Hdp Hw Hc Hk Hp;
-      (destruct k as [|k]; [simpl in Hk; lia|]).
-    - simpl in Hc. apply andb_prop in Hc. destruct Hc as [Hc _]. apply andb_prop in Hc. destruct Hc as [Hs _].
-      simpl r_tail. change ("" ++ r_sep s ++ r_path p ++ Y) with (r_sep s ++ r_path p ++ Y).
-      rewrite more_S, (p_sep_ok s _ Hs (path_hd T p Y Hp Y_upper)).
-      change (v_comp T []) with (@nil (Q * frag)). rewrite app_nil_r.
-      replace (S k - S (@length (sep * group) []))%nat with k by (simpl; lia). reflexivity.
-    - simpl in Hk. rewrite cdepth_cons in Hdp. simpl in Hw. apply andb_prop in Hw. destruct Hw as [Hg0 Hl].
-      simpl in Hc. apply andb_prop in Hc. destruct Hc as [Hc Hcl]. apply andb_prop in Hc. destruct Hc as [Hs0 Hj].
-      cbn [r_tail]. rewrite !sapp_assoc. rewrite more_S.
-      rewrite (p_sep_ok s0 _ Hs0 (group_hd T g0 _ Hg0)).
-      rewrite (group_accept T g0 f); [| lia | exact Hg0 |].
-      + rewrite (IH g0 s p k (acc ++ v_group T g0)%list); try assumption; try lia.
-        simpl length. replace (S k - S (S (length l)))%nat with (k - S (length l))%nat by lia.
-        unfold v_comp. simpl flat_map. rewrite <- !app_assoc. reflexivity.
-      + destruct l as [|[s1 g1] l'].
-        * simpl in Hcl. apply andb_prop in Hcl. destruct Hcl as [Hcl _]. apply andb_prop in Hcl. destruct Hcl as [Hs Hj'].
-          simpl r_tail. change ("" ++ r_sep s ++ r_path p ++ Y) with (r_sep s ++ r_path p ++ Y).
-          apply (follow_next_path T); try assumption. exact Y_upper.
-        * simpl in Hcl. apply andb_prop in Hcl. destruct Hcl as [Hcl _]. apply andb_prop in Hcl. destruct Hcl as [Hs1 Hj1].
-          simpl in Hl. apply andb_prop in Hl. destruct Hl as [Hg1 _].
-          cbn [r_tail]. rewrite !sapp_assoc. apply (follow_next T); assumption.
-  Qed.
-
-  (* what the group at the path does: an implicit group ends before the zero, an explicit one fails *)
-  Definition path_result (f : nat) (p : bpath) : Prop :=
-    match p with
-    | BImp _ _ => exists g, pgroup T (p_composite T f) (r_path p ++ Y) = POk g W
-    | BExp _ _ _ _ => pgroup T (p_composite T f) (r_path p ++ Y) = PFail
-    end.
-
-  (* what the enclosing composite returns: it stops before the zero, or fails, or stops before the
-     separator and parenthesis of the explicit group that failed *)
-  Definition comp_result (R : pres (list (Q * frag))) (s : sep) (p : bpath) : Prop :=
-    (exists st, R = POk st W) \/ R = PFail \/
-    (exists st l pre s' p', p = BExp l pre s' p' /\ wf_sep s = true /\ R = POk st (r_sep s ++ r_path p ++ Y)).
-
-  Lemma comp_zero : forall f pre s p, (cdepth pre <= f)%nat -> wf_pre T pre s p = true -> wf_path T p = true ->
-    path_result f p -> comp_result (p_composite T (S f) (r_pre pre s ++ r_path p ++ Y)) s p.
-  Proof.
-    intros f pre s p Hdp Hpre Hp HR. rewrite p_composite_S. destruct pre as [|[s0 g0] l].
-    - simpl r_pre. change ("" ++ r_path p ++ Y) with (r_path p ++ Y). destruct p as [c es1|l' pre' s' p'].
-      + destruct HR as (g & HR). rewrite HR. cbn [pbind]. left. eexists. apply (more_stops_zero T). exact Hd.
-      + unfold path_result in HR. rewrite HR. right. left. reflexivity.
-    - unfold wf_pre in Hpre. apply andb_prop in Hpre. destruct Hpre as [Hsh Hw].
-      change (((s0, g0) :: l) ++ [(s, path_head p)])%list with ((s0, g0) :: (l ++ [(s, path_head p)]))%list in Hsh.
-      simpl in Hsh. simpl in Hw. apply andb_prop in Hw. destruct Hw as [Hg0 Hl]. rewrite cdepth_cons in Hdp.
-      unfold r_pre. rewrite r_comp_cons, !sapp_assoc.
-      rewrite (group_accept T g0 f); [| lia | exact Hg0 |].
-      + cbn [pbind]. rewrite (more_path f l g0 s p); try assumption; try lia.
-        * destruct p as [c es1|l' pre' s' p'].
-          -- destruct HR as (g & HR). rewrite HR. left. eexists. apply (more_stops_zero T). exact Hd.
-          -- unfold path_result in HR. rewrite HR. right. right. exists (v_group T g0 ++ v_comp T l)%list, l', pre', s', p'.
-             split; [reflexivity|]. split; [|reflexivity].
-             destruct (chain_split' l (is_imp g0) s (path_head (BExp l' pre' s' p')) Hsh). assumption.
-        * pose proof (r_tail_len T l Hl). rewrite !slen_app. lia.
-      + destruct l as [|[s1 g1] l2].
-        * simpl in Hsh. apply andb_prop in Hsh. destruct Hsh as [Hsh _]. apply andb_prop in Hsh. destruct Hsh as [Hs Hj].
-          simpl r_tail. change ("" ++ r_sep s ++ r_path p ++ Y) with (r_sep s ++ r_path p ++ Y).
-          apply (follow_next_path T); try assumption. exact Y_upper.
-        * simpl in Hsh. apply andb_prop in Hsh. destruct Hsh as [Hsh _]. apply andb_prop in Hsh. destruct Hsh as [Hs1 Hj1].
-          simpl in Hl. apply andb_prop in Hl. destruct Hl as [Hg1 _].
-          cbn [r_tail]. rewrite !sapp_assoc. apply (follow_next T); assumption.
-  Qed.
-
-  Lemma skip_after_sep : forall s X, wf_sep s = true ->
-    skip_ws (r_sep s ++ String "(" X) = String "(" X \/ exists X', skip_ws (r_sep s ++ String "(" X) = String "+" X'.
-  Proof.
-    intros [a pl b] X H. unfold wf_sep in H. cbn [sp1 sp2] in H. apply andb_prop in H. destruct H as [Ha Hb].
-    unfold r_sep. cbn [sp1 sp2 plus]. rewrite !sapp_assoc. destruct pl.
-    - right. change ("+" ++ b ++ String "(" X) with (String "+" (b ++ String "(" X)).
-      rewrite skip_ws_blanks by (exact Ha || reflexivity). eexists. reflexivity.
-    - left. change ("" ++ b ++ String "(" X) with (b ++ String "(" X).
-      rewrite skip_ws_app by (apply (all_chars_impl _ _ blank_pws); exact Ha).
-      apply skip_ws_blanks; [exact Hb|reflexivity].
-  Qed.
-
-  Lemma lit_after_sep : forall c s X, wf_sep s = true -> Ascii.eqb c "(" = false -> Ascii.eqb c "+" = false ->
-    lit c (r_sep s ++ String "(" X) = PFail.
-  Proof.
-    intros c s X Hs H1 H2. unfold lit. destruct (skip_after_sep s X Hs) as [E|(X' & E)]; rewrite E.
-    - rewrite H1. reflexivity.
-    - rewrite H2. reflexivity.
-  Qed.
-
-  Lemma at_end_after_sep : forall s X, wf_sep s = true -> at_end (r_sep s ++ String "(" X) = false.
-  Proof.
-    intros s X Hs. unfold at_end. destruct (skip_after_sep s X Hs) as [E|(X' & E)]; rewrite E; reflexivity.
-  Qed.
-
-  Lemma r_elems_single : forall x, r_elems [x] = r_elem x.
-  Proof. reflexivity. Qed.
-
-  Theorem path_zero : forall p f, (pdepth p <= f)%nat -> wf_path T p = true -> path_result f p.
-  Proof.
-    induction p as [c es1|l pre s p' IH]; intros f Hdp Hp.
-    - simpl in Hp. apply andb_prop in Hp. destruct Hp as [Hc Hes].
-      assert (Hg : wf_group T (GImp c (es1 ++ [e])) = true).
-      { change (wf_group T (GImp c (es1 ++ [e]))) with
-          (wf_ctext c && negb (match (es1 ++ [e])%list with [] => true | _ => false end)
-           && forallb (wf_elem T) (es1 ++ [e]))%bool.
-        rewrite Hc, forallb_app, Hes. simpl. rewrite He. destruct es1; reflexivity. }
-      destruct (implicit_zero_lead T c es1 e d Z Hg Hcnt Hd) as (g & Hgv).
-      exists g. unfold pgroup. cbn [r_path]. unfold Y, W.
-      rewrite r_group_imp in Hgv. fold (r_elems (es1 ++ [e])) in Hgv.
-      rewrite r_elems_app, r_elems_single, !sapp_assoc in Hgv. rewrite !sapp_assoc. rewrite Hgv. reflexivity.
-    - simpl in Hp. apply andb_prop in Hp. destruct Hp as [Hp Hp']. apply andb_prop in Hp. destruct Hp as [Hl Hpre].
-      cbn [pdepth] in Hdp. destruct f as [|f]; [lia|].
-      unfold path_result. cbn [r_path]. rewrite !sapp_assoc.
-      change ("(" ++ l ++ r_pre pre s ++ r_path p' ++ Y) with (String "(" (l ++ r_pre pre s ++ r_path p' ++ Y)).
-      unfold pgroup. rewrite (p_implicit_fail T) by reflexivity. rewrite lit_here by reflexivity. cbn [pbind].
-      rewrite skip_ws_blanks by (exact Hl || exact (hds_nw _ gstart_nonws _ (pre_hd T pre s p' Y Hpre Hp' Y_upper))).
-      assert (HR : path_result f p') by (apply IH; [lia|exact Hp']).
-      destruct (comp_zero f pre s p') as [(st & E)|[E|(st & l2 & pre2 & s2 & p2 & Ep & Hs & E)]];
-        try assumption; try lia; rewrite E.
-      + reflexivity.
-      + reflexivity.
-      + cbn [pbind]. subst p'. cbn [r_path]. rewrite !sapp_assoc.
-        change ("(" ++ l2 ++ r_pre pre2 s2 ++ r_path p2 ++ Y) with (String "(" (l2 ++ r_pre pre2 s2 ++ r_path p2 ++ Y)).
-        rewrite (lit_after_sep ")" s _ Hs) by reflexivity. reflexivity.
-  Qed.
-
-  Theorem pos_zero_rejected : forall P, wf_pos T P = true -> ~ accepted T (r_pos P ++ Y).
-  Proof.
-    intros [pre s p] H (st0 & dk & r & E & Hend). unfold wf_pos in H. cbn [bp_pre bp_sep bp_path] in H.
-    apply andb_prop in H. destruct H as [Hpre Hp].
-    unfold p_compound, r_pos in E. cbn [bp_pre bp_sep bp_path] in E. rewrite sapp_assoc in E.
-    set (n := String.length (r_pre pre s ++ r_path p ++ Y)) in E.
-    assert (Hn1 : (pdepth p <= n)%nat).
-    { unfold n. pose proof (pdepth_len p). rewrite !slen_app. lia. }
-    assert (Hn2 : (cdepth pre <= n)%nat).
-    { unfold n. destruct pre as [|q pre']; [simpl; lia|]. unfold r_pre. rewrite !slen_app.
-      pose proof (cdepth_len (q :: pre')). lia. }
-    destruct (comp_zero n pre s p Hn2 Hpre Hp (path_zero p n Hn1 Hp))
-      as [(st & ER)|[ER|(st & l2 & pre2 & s2 & p2 & Ep & Hs & ER)]]; rewrite ER in E.
-    - cbn [pbind] in E. assert (Ed : p_density W = POk DNone W) by reflexivity. rewrite Ed in E.
-      cbn [pbind] in E. inversion E; subst. discriminate.
-    - discriminate.
-    - cbn [pbind] in E. subst p. cbn [r_path] in E. rewrite !sapp_assoc in E.
-      change ("(" ++ l2 ++ r_pre pre2 s2 ++ r_path p2 ++ Y) with (String "(" (l2 ++ r_pre pre2 s2 ++ r_path p2 ++ Y)) in E.
-      unfold p_density in E. rewrite (lit_after_sep "@" s _ Hs) in E by reflexivity.
-      cbn [pbind] in E. inversion E; subst. rewrite (at_end_after_sep s _ Hs) in Hend. discriminate.
-  Qed.
-End LeadingZeroAnywhere.
-
-(* a count with a leading zero directly after a symbol, at ANY element position of an otherwise
-   well-formed string, whatever follows *)
-Theorem leading_zero_anywhere_rejected : forall T P e d Z, wf_pos T P = true -> wf_elem T e = true ->
-  el_cnt e = None -> is_digit d = true ->
-  ~ accepted T (r_pos P ++ r_elem e ++ "0" ++ String d Z).
-Proof. intros T P e d Z HP He Hc Hd. exact (pos_zero_rejected T e d Z He Hc Hd P HP). Qed.
